@@ -202,7 +202,7 @@ class Gen:
             ("new", 6), ("like", 10), ("transport", 18), ("arith", 16 * w.get("arith", 1)), ("scalar", 5), ("eq", 5),
             ("append", 5), ("concat", 6), ("concat_inverse", 5), ("expand", 4), ("combine", 4), ("reshape_pmap", 4),
             ("vector_rt", 4 * w.get("relayout", 1)), ("scalar_rt", 4 * w.get("relayout", 1)), ("images_rt", 3 * w.get("relayout", 1)),
-            ("subset", 3), ("get_one", 2), ("copy", 2), ("mismatch", 2),
+            ("subset", 3), ("get_one", 2), ("copy", 2), ("empty", 1), ("mismatch", 2),
             ("obs_group", 5 * w.get("obs", 1)), ("obs_norm", 3 * w.get("obs", 1)), ("obs_pool", 3 * w.get("obs", 1)),
             ("obs_component", 2 * w.get("obs", 1)), ("obs_batch_component", 2 * w.get("obs", 1)), ("obs_images", 2 * w.get("obs", 1)),
             ("loss", 8 * w.get("loss", 1)), ("drop", 3),
@@ -270,7 +270,7 @@ class Gen:
         a = self.pick(lambda r: len(r.blocks) >= 1 and 2**-10 < max(r.max_abs(), 1) < 2**16)
         if a is None:
             return
-        self.emit({"op": self.rng.choice(["mul", "div"]), "a": a, "s": self.rng.choice(SCALARS), "out": self.fresh()})
+        self.emit({"op": self.rng.choice(["mul", "div"]), "a": a, "s": self.rng.choice(SCALARS), "srepr": self.rng.choice(["float", "float", "np32", "jax0d", "int"]), "out": self.fresh()})
 
     def g_eq(self):
         a, b = self._pair()
@@ -418,6 +418,17 @@ class Gen:
         out = self.fresh()
         if self.emit({"op": "reshape_pmap", "a": a, "n": n, "out": out}) and self.rng.random() < 0.7:
             self.emit({"op": "merge_axes", "a": out, "axes": [0, 1], "out": self.fresh(), "expect": a})
+        if self.rng.random() < 0.3:
+            # the documented axis argument: split an inner leading axis whose size equals get_L()
+            r2 = [i for i, rr in self.refs.items() if rr.first_axis_uniform() and rr.n_lead() == 2 and rr.batch_uniform()
+                  and all(b.shape[1] == b.shape[0] for b in rr.blocks.values())]
+            if r2:
+                b = self.rng.choice(sorted(r2))
+                Lb = next(iter(self.refs[b].blocks.values())).shape[0]
+                nn = self.rng.choice([m for m in (1, 2, 4) if Lb % m == 0])
+                o2 = self.fresh()
+                if self.emit({"op": "reshape_pmap", "a": b, "n": nn, "axis": 1, "out": o2}):
+                    self.emit({"op": "merge_axes", "a": o2, "axes": [1, 2], "out": self.fresh(), "expect": b})
 
     def g_vector_rt(self):
         a = self.pick(lambda r: len(r.blocks) >= 1)
@@ -450,6 +461,11 @@ class Gen:
         r = self.refs[a]
         m = min(b.shape[0] for b in r.blocks.values())
         self.emit({"op": "get_one", "a": a, "idx": self.rng.randrange(m), "keepdims": self.rng.random() < 0.5, "out": self.fresh()})
+
+    def g_empty(self):
+        a = self.pick()
+        if a is not None:
+            self.emit({"op": "empty", "a": a, "out": self.fresh()})
 
     def g_copy(self):
         a = self.pick()
@@ -643,6 +659,10 @@ def _apply_ref(op: dict, refs: dict, D: int) -> bool:
         _need(refs, op["a"])
         refs[op["out"]] = refs[op["a"]].copy()
         return True
+    if o == "empty":
+        _need(refs, op["a"])
+        refs[op["out"]] = RefMI({}, D, refs[op["a"]].is_torus)
+        return True
     if o == "drop":
         _need(refs, op["reg"])
         del refs[op["reg"]]
@@ -759,10 +779,13 @@ def _apply_ref(op: dict, refs: dict, D: int) -> bool:
         if not a.first_axis_uniform():
             return False
         n = op["n"]
+        ax = op.get("axis", 0)
         L = next(iter(a.blocks.values())).shape[0]
-        if L % n:
+        if L % n or ax >= a.n_lead():
             return False
-        refs[op["out"]] = RefMI({t: v.reshape((n, L // n) + v.shape[1:]) for t, v in a.blocks.items()}, D, a.is_torus)
+        if ax != 0 and any(v.shape[ax] != L for v in a.blocks.values()):
+            return False  # the method splits `axis` using get_L(), the size of the first axis: only defined when they agree
+        refs[op["out"]] = RefMI({t: v.reshape(v.shape[:ax] + (n, L // n) + v.shape[ax + 1 :]) for t, v in a.blocks.items()}, D, a.is_torus)
         return True
     if o in ("vector_rt", "scalar_rt", "images_rt"):
         _need(refs, op["a"])
@@ -1013,7 +1036,7 @@ def _site(op: dict, regs: dict, refs: dict) -> str:
 
 PROP_OF = {
     "add": ("C12", "pairing"), "sub": ("C12", "pairing"), "mul": ("C12", "scalar"), "div": ("C12", "scalar"), "eq": ("C12", "equality"),
-    "transport": ("C13", "transport"), "copy": ("C13", "copy"), "vector_rt": ("C13", "vector_roundtrip"), "scalar_rt": ("C13", "scalar_roundtrip"),
+    "transport": ("C13", "transport"), "copy": ("C13", "copy"), "empty": ("C13", "empty"), "vector_rt": ("C13", "vector_roundtrip"), "scalar_rt": ("C13", "scalar_roundtrip"),
     "images_rt": ("C13", "images_roundtrip"), "concat": ("C13", "concat"), "concat_inverse": ("C13", "concat_inverse"), "expand": ("C13", "expand"),
     "combine_axes": ("C13", "combine_axes"), "merge_axes": ("C13", "merge_axes"), "reshape_pmap": ("C13", "reshape_pmap"),
     "new": ("C13", "construct"), "new_shaped": ("C13", "construct"), "append": ("C13", "append"), "get_subset": ("C13", "subset"), "get_one": ("C13", "subset"),
@@ -1082,7 +1105,16 @@ def _run_real(op, regs, refs_after, D, bump, viol, log):
         regs[op["out"]] = guarded(lambda: (a + b) if o == "add" else (a - b), "arith")
     elif o in ("mul", "div"):
         a = regs[op["a"]]
-        regs[op["out"]] = guarded(lambda: (a * op["s"]) if o == "mul" else (a / op["s"]), "scalar")
+        sv: Any = op["s"]
+        rep = op.get("srepr", "float")
+        if rep == "np32":
+            sv = np.float32(sv)
+        elif rep == "jax0d":
+            sv = jnp.asarray(sv, dtype=jnp.float32)
+        elif rep == "int" and float(sv).is_integer():
+            sv = int(sv)
+        bump("scalar_repr_" + rep)
+        regs[op["out"]] = guarded(lambda: (a * sv) if o == "mul" else (a / sv), "scalar")
     elif o == "eq":
         a, b = regs[op["a"]], regs[op["b"]]
         ra, rb = refs_after[op["a"]], refs_after[op["b"]]
@@ -1098,6 +1130,8 @@ def _run_real(op, regs, refs_after, D, bump, viol, log):
             fail("equality", {"got": bool(got), "want": want, "a_order": _order(a), "b_order": _order(b)})
     elif o == "copy":
         regs[op["out"]] = guarded(lambda: regs[op["a"]].copy(), "copy")
+    elif o == "empty":
+        regs[op["out"]] = guarded(lambda: regs[op["a"]].empty(), "empty")
     elif o == "drop":
         del regs[op["reg"]]
     elif o == "append":
@@ -1129,7 +1163,7 @@ def _run_real(op, regs, refs_after, D, bump, viol, log):
     elif o == "merge_axes":
         regs[op["out"]] = guarded(lambda: regs[op["a"]].merge_axes(list(op["axes"])), "merge_axes")
     elif o == "reshape_pmap":
-        regs[op["out"]] = guarded(lambda: regs[op["a"]].reshape_pmap(devices(op["n"])), "reshape_pmap")
+        regs[op["out"]] = guarded(lambda: regs[op["a"]].reshape_pmap(devices(op["n"]), axis=op.get("axis", 0)), "reshape_pmap")
     elif o == "vector_rt":
         a = regs[op["a"]]
 
